@@ -325,15 +325,18 @@ def webentityByPrefix (s : State) (pfx : Bytes) : Except Err Nat :=
   | none => .error .traph
   | some n => if (s.cell n).we = 0 then .error .traph else .ok (s.cell n).we
 
+def forPrefixesStep {α} (s : State) (f : Nat → Bytes → List α) (acc : Except Err (List α)) (p : Bytes) :
+    Except Err (List α) :=
+  match acc with
+  | .error e => .error e
+  | .ok xs => match s.lruNode (lruIter p) with
+    | none => .error .traph
+    | some n => .ok (xs ++ f n p)
+
 /-- run `f` on the start block of every prefix in turn, failing with the library's error on the first
     prefix that is not in the trie -/
 def forPrefixes {α} (s : State) (prefixes : List Bytes) (f : Nat → Bytes → List α) : Except Err (List α) :=
-  prefixes.foldl (fun acc p =>
-    match acc with
-    | .error e => .error e
-    | .ok xs => match s.lruNode (lruIter p) with
-      | none => .error .traph
-      | some n => .ok (xs ++ f n p)) (.ok [])
+  prefixes.foldl (s.forPrefixesStep f) (.ok [])
 
 /-- `get_webentity_pages(weid, prefixes)` : (lru, crawled) -/
 def webentityPages (s : State) (prefixes : List Bytes) : Except Err (List (Bytes × Bool)) :=
